@@ -33,12 +33,13 @@ TDIGEST_STAT_JOB = job("tdigest_stat",
 
 # directed segments: the centroid bound under pressure - a compress point after every single update (k 10, 50, 200),
 # chains of several hundred merges of 1..8-value sketches, degenerate contents (empty / NaN only / one value / equal values / constant),
+# infinite extremes with a dense quantile sweep,
 # thorough: streams of 1.2 * 10^6 values (k 100, 200)
 TDIGEST_BOUND_JOB = job("tdigest_bound",
     harness="tdigest_rec", inc=["common", "tdigest"], spec="TraceTDigest", owners=["C17"], serde=False,
-    files={Q: 6, T: 8}, heap="6g",
+    files={Q: 7, T: 9}, heap="6g",
     args=lambda tier, seed, k, profile: ["--seed", seed, "--directed", k],
-    nontrivial=lambda evs: sum(1 for e in evs if "cent" in e) >= 100 or sum(1 for e in evs if e["e"] in ("RankGrid", "QuantGrid", "Cdf")) >= 100,
+    nontrivial=lambda evs: sum(1 for e in evs if "cent" in e) >= 100 or sum(1 for e in evs if e["e"] in ("RankGrid", "QuantGrid", "Cdf")) >= 100 or any(e["e"] == "UpdateInf" for e in evs),
 )
 
 TDIGEST_MC = [
